@@ -305,7 +305,9 @@ def run_check(pid, tier, seed, jobs, limit=None):
     if new_viol:
         sigs = {}
         for idx, v in new_viol:
-            sg = dumps(v.get("key", {}), sort_keys=True)
+            kk = v.get("key", {})
+            short = {k: kk[k] for k in ("kind", "exc", "site", "solver", "component", "quantity", "how") if k in kk}
+            sg = dumps(short or kk, sort_keys=True)
             sigs[sg] = sigs.get(sg, 0) + 1
         for sg, cnt in sorted(sigs.items(), key=lambda kv: -kv[1])[:25]:
             print("  viol-key x%-5d %s" % (cnt, sg))
